@@ -3,10 +3,11 @@ import vlib
 from pipe_common import PipeSpec
 
 PROP_FILES = ["C10"]
+SPECS = {"pipe": (PipeSpec(), "harness_pipe", "runner-pipe")}
 
 
 def run(ctx):
-    proofs_ok = ctx.check_proofs(PROP_FILES, extra_targets=["theories/Conc/Pipe.vo"])
+    proofs_ok = ctx.check_proofs(PROP_FILES, extra_targets=["theories/Conc/Pipe.vo", "theories/Conc/PipeMatcher.vo"])
     ok, out, exe = vlib.build_runner(module="harness_pipe", exe_name="runner-pipe")
     if not ok:
         ctx.violation("harness-build", "the harness does not build against the current tree: " + out[-1500:], {"build_output": out[-4000:]}, failing_input=False)
